@@ -61,7 +61,8 @@ package gorp
 //@   (forall v V, i int, j int :: __in(l.forward, v) && 0 <= i && i < j && j < len(l.forward[v]) ==> l.forward[v][i] != l.forward[v][j])
 //@ # representation invariant: forward is exactly the inverse of reverse
 //@ spec func LI[K Key, E Entry[K], V comparable](l *LookupIndex[K, E, V]) bool =
-//@   LB(l) && (forall v V, k K :: inB(l, v, k) == (__in(l.reverse, k) && l.reverse[k] == v))
+//@   LB(l) && (forall v V, k K :: inB(l, v, k) ==> __in(l.reverse, k) && l.reverse[k] == v) &&
+//@   (forall k K :: __in(l.reverse, k) ==> inB(l, l.reverse[k], k))
 
 //@ func (l *LookupIndex[K, E, V]) removeFromForward(key K, value V)
 //@   tparams K Key, E Entry[K], V comparable
@@ -73,33 +74,6 @@ package gorp
 //@   loop 0 invariant len(keys) == len(l.forward[value]) && (forall j int :: 0 <= j && j < len(keys) ==> keys[j] == l.forward[value][j])
 //@   loop 0 invariant forall j int :: 0 <= j && j < __ri(0) ==> keys[j] != key
 
-//@ # committed write: reverse[key] := value, every other key untouched, invariant kept
-//@ func (l *LookupIndex[K, E, V]) putLocked(key K, value V)
-//@   tparams K Key, E Entry[K], V comparable
-//@   requires LI(l)
-//@   ensures  LI(l)
-//@   ensures  __in(l.reverse, key) && l.reverse[key] == value
-//@   ensures  forall k K :: k != key ==> __in(l.reverse, k) == old(__in(l.reverse, k)) && l.reverse[k] == old(l.reverse[k])
-//@   modifies l.forward, l.reverse
-//@ # committed delete
-//@ func (l *LookupIndex[K, E, V]) deleteLocked(key K)
-//@   tparams K Key, E Entry[K], V comparable
-//@   requires LI(l)
-//@   ensures  LI(l)
-//@   ensures  !__in(l.reverse, key)
-//@   ensures  forall k K :: k != key ==> __in(l.reverse, k) == old(__in(l.reverse, k)) && l.reverse[k] == old(l.reverse[k])
-//@   modifies l.forward, l.reverse
-//@ # flushing a committed transaction's delta: committed state becomes old state overridden by the staged entries
-//@ func (l *LookupIndex[K, E, V]) flush(d *delta[K, V])
-//@   tparams K Key, E Entry[K], V comparable
-//@   requires LI(l) && d != nil && d.state != nil
-//@   ensures  LI(l)
-//@   ensures  forall k K :: __in(d.state, k) && d.state[k].deleted ==> !__in(l.reverse, k)
-//@   ensures  forall k K :: __in(d.state, k) && !d.state[k].deleted ==> __in(l.reverse, k) && l.reverse[k] == d.state[k].value
-//@   ensures  forall k K :: !__in(d.state, k) ==> __in(l.reverse, k) == old(__in(l.reverse, k)) && l.reverse[k] == old(l.reverse[k])
-//@   modifies l.forward, l.reverse
-//@   loop 0 modifies l.forward, l.reverse
-//@   loop 0 invariant LI(l)
-//@   loop 0 invariant forall k K :: __seen(k) && d.state[k].deleted ==> !__in(l.reverse, k)
-//@   loop 0 invariant forall k K :: __seen(k) && !d.state[k].deleted ==> __in(l.reverse, k) && l.reverse[k] == d.state[k].value
-//@   loop 0 invariant forall k K :: !__seen(k) ==> __in(l.reverse, k) == old(__in(l.reverse, k)) && l.reverse[k] == old(l.reverse[k])
+//@ # putLocked / deleteLocked / flush (reverse[key] := value with LI preserved) are not under contract:
+//@ # their obligations (existential bucket membership across append and slices.Delete) were not
+//@ # discharged within the time budget and are listed as not covered for C17.
